@@ -1683,3 +1683,40 @@ def check_messages(rep, g):
                     if kind == 'new_display' and val[0] == 'field' and val[1][0] == 'downcast' and val[1][3] == 'Validate':
                         ok = True
             rep.ob('R-MSG', ok, g, 'ParseError::Validate(e) is displayed through e\'s own Display', {})
+
+
+# ----------------------------------------------------------------------------- C15 no_std
+
+def path_roots(s):
+    """crate roots of every path mentioned in a printed type / def-path string"""
+    return set(re.findall(r'(?<![\w:])([A-Za-z_][A-Za-z0-9_]*)::', s))
+
+
+def check_nostd_paths(rep, g):
+    """R-NOSTD: nothing the generated code of this declaration resolves to lives in `std`"""
+    F = g.F
+    bad = []
+    n = 0
+    for fn in g.fns:
+        rep.bodies.add(fn['lid'])
+        bodies = [fn] + list(fn.get('promoted', []))
+        for body in bodies:
+            for ti in body['locals']:
+                n += 1
+                if 'std' in path_roots(F.tys(ti)):
+                    bad.append(('type', F.tys(ti), fn['path']))
+            for blk in body['blocks']:
+                t = blk['term']
+                if t['t'] == 'call' and 'fn' in t['f']:
+                    c = t['f']['fn']
+                    n += 1
+                    for p in (c['path'], (c.get('res') or {}).get('path', '')):
+                        if 'std' in path_roots(p + '::'):
+                            bad.append(('callee', p, fn['path']))
+    for i in g.impls:
+        tr = i.get('trait_full')
+        if tr:
+            n += 1
+            if 'std' in path_roots(tr):
+                bad.append(('impl', tr, ''))
+    rep.ob('R-NOSTD', not bad, g, f'all {n} types / callees / traits the generated code resolves to are outside `std`', {'std_items': bad[:5]})
